@@ -242,15 +242,32 @@ def rule_source(ctx, cd):
         loops = [f for f in t.ast.find_all(N.For) if xs(f.iter).endswith(".constants")]
         ok = bool(loops) and all(l.test is None for l in loops)
         ctx.ob(R, t.rel, f"{lang}: every constant is exported (unfiltered loop)", ok, "")
+        _constants_unconditional(ctx, R, cd, t, lang, loops)
     t = cd.ts.get("py", "base.j2")
     m = cd.ts.macro(t, "data_schema")
     loops = [f for f in m.find_all(N.For) if xs(f.iter) == "type.constants"]
     ok = len(loops) == 1 and loops[0].test is None
     ctx.ob(R, t.rel, "py: every constant is exported (unfiltered loop)", ok, "")
+    _constants_unconditional(ctx, R, cd, t, "py", loops)
     srcs = {loopvar_norm(t, xs(g2)) for g2 in loops[0].find_all(N.Getattr) if loopvar_norm(t, xs(g2)).startswith("<each:constants>.value")} if loops else set()
     ok = srcs >= {"<each:constants>.value.native_value", "<each:constants>.value.native_value.numerator", "<each:constants>.value.native_value.denominator"} \
         and any("as_native_integer" in xs(c) for c in loops[0].find_all(N.Call))
     ctx.ob(R, t.rel, "py: constants come from c.value (bool: native_value, int: as_native_integer(), float: exact numerator/denominator)", ok, f"{sorted(srcs)}")
+
+
+def _constants_unconditional(ctx, R, cd, t, lang, loops):
+    """the loop that exports the constants of a type runs for every type: the only conditions it may sit under are tests of the
+    iterated collection itself (`{% if x.constants %}` around a banner).  A test of another object's constants - the top-level
+    `T` inside a macro that also renders a service's request and response - silently drops them for the types where the two differ"""
+    for node, stack in j2front.walk(t.ast):
+        if not any(node is l for l in loops):
+            continue
+        it = xs(node.iter)
+        own = {it, f"({it} | length)", f"(({it} | length) > 0)", f"({it} | length > 0)", f"({it} is defined)"}
+        foreign = [(e, p) for e, p in j2front.facts(stack) if e not in own and not (e.startswith("(") and e.strip("()").split(" ")[0] == it)]
+        ctx.ob(R, t.rel, f"{lang}: the constants of `{it.rsplit('.', 1)[0]}` are exported whatever else holds", not foreign,
+               "" if not foreign else f"the loop over {it} runs only under {foreign}: where that differs from `{it}` itself (a service's request / response "
+               "against the service, a nested type against the top-level one) the type loses its constants", node.lineno)
 
 
 def rule_defuse(ctx, cd):
@@ -315,6 +332,46 @@ def rule_refuse(ctx, cd):
             if not ok:
                 bad += 1
         ctx.ob(R, t.rel, f"{lang}: buffer-too-small refusal on all {n} paths of _serialize_impl", bad == 0, "" if bad == 0 else f"{bad} paths write without the refusal")
+    # C compiles the refusal out under <T>_DISABLE_SERIALIZATION_BUFFER_CHECK_.  The generated header may define that macro itself
+    # only where the user has pre-defined a (smaller) array capacity: in a later branch of the `#ifndef <T>_<f>_ARRAY_CAPACITY_`
+    # group.  Decided on the preprocessor structure of every rendered path of the definitions template.
+    from nvsa import j2text
+    t = cd.ts.get("c", "definitions.j2")
+    N = cd.N
+    n_def, bad_sites = 0, []
+    for mname, mac in cd.ts.macros(t).items():
+        try:
+            paths = j2text.render_paths(N, mac.body, limit=4096, macros=cd.ts.macros(t))
+        except AnalysisError:
+            raise AnalysisError(f"{t.rel}:{mname}: too many static text paths to decide the preprocessor structure")
+        seen = set()
+        for p in paths:
+            stack = []
+            for ln in p.text.splitlines():
+                m = re.match(r"^\s*#\s*(ifndef|ifdef|if|elif|else|endif|define)\b\s*(.*)$", ln)
+                if not m:
+                    continue
+                kind, arg = m.group(1), m.group(2).strip()
+                if kind in ("ifndef", "ifdef", "if"):
+                    stack.append([kind, arg, 0])
+                elif kind in ("elif", "else"):
+                    if stack:
+                        stack[-1][2] += 1
+                elif kind == "endif":
+                    if stack:
+                        stack.pop()
+                elif kind == "define" and re.match(r"^\S*_DISABLE_SERIALIZATION_BUFFER_CHECK_\b", arg):
+                    ok = any(k_ == "ifndef" and a_.endswith("_ARRAY_CAPACITY_") and b_ >= 1 for k_, a_, b_ in stack)
+                    key = (mname, tuple((k, re.sub(r"Pz\d+z", "<x>", a), b) for k, a, b in stack))
+                    if key in seen:
+                        continue
+                    seen.add(key)
+                    n_def += 1
+                    where = " > ".join(f"#{k} {re.sub('Pz[0-9]+z', '<x>', a)} [branch {b}]" for k, a, b in stack) or "no conditional"
+                    ctx.ob(R, t.rel, f"c: {mname}: the header switches the refusal off only where the user pre-defined the array capacity ({where})", ok,
+                           "" if ok else "<T>_DISABLE_SERIALIZATION_BUFFER_CHECK_ is defined outside the `#ifndef <T>_<f>_ARRAY_CAPACITY_ ... #elif` branch: with the "
+                           "default capacity the up-front buffer check of <T>_serialize_ is compiled out and an undersized buffer is overrun", mac.lineno)
+    ctx.unit("c_refusal_disable_sites", n_def)
     # the C <T>_SERIALIZATION_BUFFER_SIZE_BYTES_ >= bit_length_set.max/8 relation is numerical (pydsdl: inner extent >= max bit length): declined
 
 
